@@ -54,12 +54,14 @@ CONSTANTS N,          \* number of numbered (non-document, non-namespace) nodes
           Kinds,      \* subset of AllKinds
           RootCfg,    \* "R1" document | "R2" element, implied document | "R3" fragment | "R4" lone leaf | "R5" extended document | "R6" promoted element
           Decls,      \* subset of {"none", "p", "dp"}
-          DocLevel    \* TRUE: comments/PIs may be children of the document (R1 only)
+          DocLevel,   \* TRUE: comments/PIs may be children of the document (R1 only)
+          Flat        \* TRUE: only the wide tree (every node 2..N is a child of node 1)
 
 VARIABLES parent, kind, decl
 
-ElemK == {"a0", "b0", "an", "ad", "bd"}
-AttrK == {"xa0", "xan"}
+XMLNS == "http://www.w3.org/XML/1998/namespace"   \* always in scope (prefix xml): "ax" = xml:a, "xax" = xml:lang
+ElemK == {"a0", "b0", "an", "ad", "bd", "ax"}
+AttrK == {"xa0", "xan", "xax"}
 PIK   == {"pp", "pa"}
 TextK == {"t", "te"}
 AllKinds == ElemK \cup AttrK \cup PIK \cup TextK \cup {"c"}
@@ -67,15 +69,17 @@ AllKinds == ElemK \cup AttrK \cup PIK \cup TextK \cup {"c"}
 NsOf(k)    == CASE k \in {"a0", "b0", "xa0"} -> ""
                 [] k \in {"an", "xan"}      -> "urn:n"
                 [] k \in {"ad", "bd"}       -> "urn:d"
-LocalOf(k) == CASE k \in {"a0", "an", "ad", "xa0", "xan"} -> "a"
+                [] k \in {"ax", "xax"}      -> XMLNS
+LocalOf(k) == CASE k \in {"a0", "an", "ad", "ax", "xa0", "xan"} -> "a"
+                [] k = "xax"                              -> "lang"
                 [] k \in {"b0", "bd"}                     -> "b"
 TargetOf(k) == CASE k = "pp" -> "pi" [] k = "pa" -> "a"
 
 (* projection on the kind alphabet of XDM.tla *)
-Base(k) == CASE k \in {"a0", "an", "ad"} -> "ea"
+Base(k) == CASE k \in {"a0", "an", "ad", "ax"} -> "ea"
              [] k \in {"b0", "bd"}       -> "eb"
              [] k = "xa0"                -> "xa"
-             [] k = "xan"                -> "xc"
+             [] k \in {"xan", "xax"}     -> "xc"
              [] k \in PIK                -> "p"
              [] k \in TextK              -> "t"
              [] OTHER                    -> k
@@ -91,15 +95,17 @@ PrefixesOf(d) == CASE d = "none" -> {"xml"}
                    [] d = "dp"   -> {"xml", "", "p"}
 NsIdx(pfx) == CASE pfx = "xml" -> 1 [] pfx = "" -> 2 [] pfx = "p" -> 3
 PfxOfIdx(j) == CASE j = 1 -> "xml" [] j = 2 -> "" [] j = 3 -> "p"
-AllowedElem(d) == CASE d = "none" -> {"a0", "b0"}
-                    [] d = "p"    -> {"a0", "b0", "an"}
+AllowedElem(d) == CASE d = "none" -> {"a0", "b0", "ax"}
+                    [] d = "p"    -> {"a0", "b0", "an", "ax"}
                     [] d = "dp"   -> ElemK
 RootAllowed(d) == IF d = "dp" THEN {"ad", "bd", "an"} ELSE AllowedElem(d)   \* xmlns="urn:d" on a Q{}name is not XML
-AllowedAttr(d) == IF d = "none" THEN {"xa0"} ELSE {"xa0", "xan"}
+AllowedAttr(d) == IF d = "none" THEN {"xa0", "xax"} ELSE AttrK
 
 ---------------------------------------------------------------------------
 (* The tree universe *)
 ValidParentsX ==
+  IF Flat THEN {[i \in 1..N |-> IF i = 1 THEN 0 ELSE 1]}      \* built directly: the function space is too large for N = 13
+  ELSE
   {p \in [1..N -> 0..(N-1)] :
       /\ p[1] = 0
       /\ \A i \in 2..N : p[i] < i
